@@ -91,6 +91,42 @@ def refine(diff, tol, rng_seed=0):
             best = (env, val)
     if best and abs(best[1]) > tol:
         return best
+    # exact query over the real variables themselves (no abstraction): nlsat on the polynomial difference inside the box
+    try:
+        zs = {v: z3.Real(v) for v in vs}
+        s = z3.Tactic('qfnra-nlsat').solver()
+        s.set('timeout', 20000)
+        for v in vs:
+            s.add(zs[v] >= -1, zs[v] <= 1)
+        if 'xi1' in zs and 'xi2' in zs:
+            s.add(zs['xi1'] <= zs['xi2'])
+        if 'c0' in zs and 'c1' in zs:
+            for sg0 in (1, -1):
+                for sg1 in (1, -1):
+                    s.add(sg0 * zs['c0'] + sg1 * zs['c1'] <= 1)
+        tot = z3.RealVal(0)
+        for mono, c in diff.t.items():
+            term = z3.Q(c.numerator, c.denominator)
+            for v, e in mono:
+                for _ in range(e):
+                    term = term * zs[v]
+            tot = tot + term
+        tq = z3.Q(tol.numerator, tol.denominator)
+        s.add(z3.Or(tot > tq, tot < -tq))
+        if s.check() == z3.sat:
+            m = s.model()
+            env = {}
+            for v in vs:
+                val = m.eval(zs[v], model_completion=True)
+                if z3.is_rational_value(val):
+                    env[v] = Fraction(val.numerator_as_long(), val.denominator_as_long())
+                else:
+                    env[v] = Fraction(val.approx(20).as_fraction()) if hasattr(val, 'approx') else Fraction(0)
+            val = diff.eval(env)
+            if abs(val) > tol:
+                return env, val
+    except Exception:
+        pass
     return None
 
 
